@@ -303,6 +303,75 @@ def E3() -> bool:
     return run(body_E3, "X", {})
 
 
+# -- E4: many tasks open at the same time ------------------------------------------------------
+WIDTHS = [2, 1000, 1001, 1500]
+
+
+def body_E4(ctx):
+    """W tasks whose messages are interleaved so that all of them are incomplete at the same time
+    (all starts first), then finished in a solver-chosen order: each task is yielded exactly once,
+    complete, at the instant its last message is read - however many tasks are pending."""
+    W = WIDTHS[ctx.choose(len(WIDTHS), "number of simultaneously open tasks")]
+    order = ctx.choose(2, "finishing order")
+    drop_end_of = ctx.choose(2, "task whose end is lost (0 = none)")
+
+    def msg(u, level, **kw):
+        d = {"task_uuid": "t%04d" % u, "task_level": level, "timestamp": float(u)}
+        d.update(kw)
+        return d
+
+    stream = [msg(u, [1], action_type="app:a", action_status="started") for u in range(W)]
+    idx = list(range(W))
+    if order == 1:
+        idx.reverse()
+    elif order == 2:
+        idx = idx[1::2] + idx[0::2]
+    lost = None if drop_end_of == 0 else idx[0] if drop_end_of == 1 else idx[-1]
+    last = {}
+    for u in idx:
+        stream.append(msg(u, [2], message_type="app:m"))
+        if u != lost:
+            stream.append(msg(u, [3], action_type="app:a", action_status="succeeded"))
+        last[u] = len(stream) - 1
+    fed = []
+
+    def gen():
+        for pos, m in enumerate(stream):
+            fed.append(pos)
+            yield m
+
+    seen = {}
+    twice = []
+    try:
+        for t in Parser.parse_stream(gen()):
+            u = int(t.root().task_uuid[1:])
+            if u in seen:
+                twice.append(u)
+            seen[u] = (len(fed) - 1, t.is_complete())
+    except Exception as e:
+        ctx.fail("parse_stream raised %r with %d open tasks" % (e, W))
+    ctx.check(not twice, "with %d tasks open, %d tasks were yielded more than once (first: task %r)", W, len(twice), twice[:1])
+    ctx.check(len(seen) == W, "%d tasks in the stream, %d yielded", W, len(seen))
+    for u in idx:
+        when, complete = seen[u]
+        if u == lost:
+            ctx.check(not complete and when == len(stream) - 1, "the task without an end was yielded at input %d of %d, complete=%r", when, len(stream), complete)
+        else:
+            ctx.check(complete, "with %d tasks open, task %d received all its messages but was yielded incomplete", W, u)
+            ctx.check(when == last[u], "with %d tasks open, task %d was yielded at input %d, its last message was input %d", W, u, when, last[u])
+    ctx.nontrivial((W, order, drop_end_of))
+    if W > 1000:
+        ctx.reached("wide")
+    ctx.sample({"open_tasks": W, "finishing_order": order, "lost_end": lost})
+
+
+def E4() -> bool:
+    """
+    post: _
+    """
+    return run(body_E4, "X", {})
+
+
 # -- L1: the completeness rule with a symbolic end position (Mode S) ---------------------------
 def body_L1(ctx, e, status_failed):
     c = ctx.shard.get("children", 2)
@@ -404,5 +473,16 @@ OBLIGATIONS = [
         timeout={"quick": 150, "thorough": 400},
         path_timeout=60,
         bounds={"quick": "c in 0..3 concrete children, end position any integer >= c+2, end arriving last or first"},
+    ),
+    Ob(
+        "E4",
+        E4,
+        body_E4,
+        "X",
+        desc="many tasks incomplete at the same time: each is yielded once, complete, at its last message",
+        functions=["Parser.parse_stream", "Parser.add", "Task.add"],
+        twin=[{"twin_label": "wide"}],
+        timeout={"quick": 100, "thorough": 300},
+        bounds={"quick": "2, 1000, 1001 or 1500 three-message tasks all started before any ends; finished in start order or reverse order; optionally the end message of the first finisher lost"},
     ),
 ]
